@@ -62,10 +62,11 @@ def instrs(weights, pol=None, ipol=None, trees=None, delays=delays):
         "fail": st.tuples(st.just("fail"), small, excs).map(list),
         "cb": st.tuples(st.just("cb"), small, st.booleans()).map(list),
         "cbjoin": st.tuples(st.just("cbjoin"), small, st.booleans()).map(list),
+        "chain": st.tuples(st.just("chain"), small, st.booleans(), pol, ipol).map(list),
         "cbintr": st.tuples(st.just("cbintr"), small, small, vals).map(list),
         "spawn": st.tuples(st.just("spawn"), small).map(list),
         "interrupt": st.tuples(st.just("interrupt"), small, vals).map(list),
-        "neg_timeout": st.tuples(st.just("neg_timeout"), st.sampled_from([-1, -0.5, -0.1, -3])).map(list),
+        "neg_timeout": st.tuples(st.just("neg_timeout"), st.sampled_from([-1, -0.5, -0.1, -3, -1e-9, -2.5e-10, -1e-12, -1e-300, -5e-324])).map(list),
         "burn": st.tuples(st.just("burn"), st.sampled_from([0, 0.125, 0.25, 0.5, 1, 2, 4])).map(list),
         "return": st.tuples(st.just("return"), vals).map(list),
         "raise": st.tuples(st.just("raise"), excs).map(list),
